@@ -7,15 +7,20 @@ from .m_core import deref_all
 
 
 class FmtArgs(Opaque):
-    def __init__(self, text='', pieces=None, args=None):
+    def __init__(self, text='', pieces=None, args=None, tmpl=None):
         Opaque.__init__(self, 'fmtargs')
-        self.text = text; self.pieces = pieces; self.args = args or []
+        self.text = text; self.pieces = pieces; self.args = args or []; self.tmpl = tmpl
 
 
 @model(r'Arguments::<.*>::new_const::<.*>|Arguments::<.*>::new_v1::<.*>|Arguments::<.*>::new_v1_formatted|Arguments::<.*>::new::<.*>|Arguments::<.*>::from_str|Arguments::<.*>::from_str_nonconst|core::fmt::Arguments::<.*>::.*|std::fmt::Arguments::<.*>::.*')
 def _args_new(e, c, a):
     text = ''
     args = []
+    tmpl = None
+    if a:
+        t0 = deref_all(a[0])
+        if isinstance(t0, Seq) and t0.e and all(isinstance(cl.v, Int) and cl.v.bits == 8 and type(cl.v.t) is int for cl in t0.e):
+            tmpl = [cl.v.t for cl in t0.e]      # byte-coded template: <len><literal bytes> | 0xC0 (next argument) ... 0x00
     for x in a:
         x0 = deref_all(x)
         if isinstance(x0, StrRef):
@@ -34,13 +39,13 @@ def _args_new(e, c, a):
                     text += show_bytes(v.bytes())
                 elif isinstance(v, Opaque) and v.kind == 'fmtarg':
                     args.append(v)
-    return FmtArgs(text, None, args)
+    return FmtArgs(text, None, args, tmpl)
 
 
 @model(r'core::fmt::rt::Argument::<.*>::new_\w+::<.*>|Argument::<.*>::new_\w+::<.*>|core::fmt::rt::Argument::<.*>::none')
 def _arg_new(e, c, a):
-    m = re.search(r'new_(\w+)::<', c)
-    return Opaque('fmtarg', val=a[0] if a else None, how=m.group(1) if m else 'none')
+    m = re.search(r'new_(\w+)::<(.*)>$', c)
+    return Opaque('fmtarg', val=a[0] if a else None, how=m.group(1) if m else 'none', ty=m.group(2) if m else None)
 
 
 @model(r'format|std::fmt::format|alloc::fmt::format|std::fmt::format::format_inner|alloc::fmt::format::format_inner')
@@ -56,6 +61,11 @@ def _must_use(e, c, a):
 
 @model(r'std::io::_eprint|std::io::_print|_eprint|_print')
 def _eprint(e, c, a):
+    cli = getattr(e, 'cli', None)
+    if cli is not None and cli.get('print_to_out') and c.endswith('_print') and not c.endswith('_eprint'):
+        from .m_cli import render
+        from .m_io import writer_write
+        writer_write(e, cli['out'], render(e, a[0]))
     return UNIT
 
 
